@@ -10,9 +10,34 @@ Definition probe_dialect (dialect : str) (r : rexpr) :=
    match p with Some q => read_tokens (tokens_of q) | None => None end,
    (map fst (filter (fun tv => negb (verdict_ok (snd tv))) (tree_triples dialect (rsize r) r)),
     match p with Some q => map (fun x => (sop_text (fst x), sop_text (snd x))) (rot_bad (snd q)) | None => [] end)).
+(* canonical text of an RQ expression, compared with the `verif:preprocess` hook's view of rq::Expr
+   (pass "normalize": `in` = what the resolver + lowerer hand to the SQL back end, `out` = after the Normalizer).
+   std.and#in is the model-internal tag of the `and` built by `in`: the implementation's operator is std.and. *)
+Local Open Scope N_scope.
+Fixpoint join_with (sep : str) (l : list str) : str :=
+  match l with [] => [] | [x] => x | x :: t => x ++ sep ++ join_with sep t end.
+Definition rq_lit (l : lit) : str :=
+  match l with
+  | LNull => [110;117;108;108]
+  | LInt z => 105 :: show_z z
+  | LFloat n k => 102 :: show_float n k
+  | LBool _ => lit_text l
+  | LStr s => 115 :: quote_sql s
+  end.
+Fixpoint rq_ser (r : rexpr) : str :=
+  match r with
+  | RCol i => 99 :: show_z (Z.of_nat i)
+  | RLit l => rq_lit l
+  | ROp n args => (if leqb n n_and_in then n_and else n) ++ [40] ++ join_with [59] (map rq_ser args) ++ [41]
+  | RCase cs => [99;97;115;101;40] ++ join_with [59] (flat_map (fun cv => [rq_ser (fst cv); rq_ser (snd cv)]) cs) ++ [41]
+  end.
+Local Close Scope N_scope.
+
 Definition probe (e : pexpr) (envs : list (list val)) :=
-  let r := normalize (resolve e) in
-  ([probe_dialect d_sqlite r; probe_dialect d_generic r], corner e, map (fun env => ship (eval_doc env e)) envs).
+  let r0 := resolve e in
+  let r := normalize r0 in
+  ([probe_dialect d_sqlite r; probe_dialect d_generic r], corner e, map (fun env => ship (eval_doc env e)) envs,
+   (rq_ser r0, rq_ser r)).
 
 (* a std function call (math.*, text.*: an RQ operator that is not produced by ast_expand) applied to operator
    expressions: the arguments are resolved on their own, the call node itself is not folded by static_eval *)
@@ -47,4 +72,5 @@ Definition probe_let (e1 e2 : pexpr) (envs : list (list val)) :=
   let r := rsubst 3 r1 (normalize (resolve e2)) in
   (if inlinable r1 then [probe_dialect d_sqlite r; probe_dialect d_generic r] else [],
    corner e1 || corner e2,
-   map (fun env => ship (match eval_doc env e1 with Some v => eval_doc (firstn 3 (env ++ [VNull; VNull; VNull]) ++ [v]) e2 | None => None end)) envs).
+   map (fun env => ship (match eval_doc env e1 with Some v => eval_doc (firstn 3 (env ++ [VNull; VNull; VNull]) ++ [v]) e2 | None => None end)) envs,
+   ((rq_ser (resolve e1), rq_ser r1), (rq_ser (resolve e2), rq_ser (normalize (resolve e2))))).   (* the two computes of the RQ *)
